@@ -274,7 +274,7 @@ def run(rep):
     submit('num', h_num(True, vac=True), 'MCDimMachine', 'MCDimMachine.cfg', tag='c20-num', workers=8, deadlock=False)
     simcfg = _cfg('MCDimMachine.cfg', Pows='MCPowsThorough', MaxSteps=6, FullSteps=6, LeafDedup='FALSE')
     submit('numsim', h_num(False), 'MCDimMachine', cfg_text=simcfg, tag='c20-numsim', workers=2 if quick else 4, deadlock=False,
-           simulate=dict(num=2 if quick else 24), depth=13, seed=seed)
+           simulate=dict(num=2 if quick else 16), depth=13, seed=seed)
     submit('fn', h_fn(True, vac=True, budget=1500 if quick else None, numeric=40 if quick else 600), 'MCDimFn', 'MCDimFn.cfg', tag='c20-fn', workers=4, deadlock=False)
     submit('laws', h_laws, 'MCDimLaws', cfg_text=_cfg('MCDimLaws.cfg', ExpSet='ExpQuick' if quick else 'ExpThorough'), tag='c20-laws', workers=1, deadlock=False)
     submit('tunit', h_tunit, 'UnitTable', 'UnitTable.cfg', tag='c20-tunit', workers=1, deadlock=False, env=dict(VF_TABLE=tunit))
@@ -289,7 +289,7 @@ def run(rep):
         submit('numsim4', h_num(False), 'MCDimMachine', cfg_text=_cfg('MCDimMachine.cfg', BaseOrd='MCBaseOrd4', Seeds='MCSeedsThorough', Pows='MCPowsThorough',
                                                                       MaxSteps=5, FullSteps=5, LeafDedup='FALSE'),
                tag='c20-numsim4', workers=3, deadlock=False, simulate=dict(num=9), depth=11, seed=seed + 1)
-        submit('fn2', h_fn(True, budget=40000, numeric=600), 'MCDimFn', cfg_text=_cfg('MCDimFn.cfg', Inits='MCInitsThorough'), tag='c20-fn2', workers=4, deadlock=False)
+        submit('fn2', h_fn(True, budget=20000, numeric=400), 'MCDimFn', cfg_text=_cfg('MCDimFn.cfg', Inits='MCInitsThorough'), tag='c20-fn2', workers=4, deadlock=False)
         submit('fn3', h_modelonly, 'MCDimFn', cfg_text=_no_emit(_cfg('MCDimFn.cfg', Inits='MCInitsDeep', MaxSteps=3)), tag='c20-fn3', workers=6, deadlock=False, timeout=1500)
         results_only = lambda text: text.replace('CONSTRAINT Emit', 'CONSTRAINT EmitResults')
         submit('unit2', h_unit(True), 'MCUnitMachine', cfg_text=results_only(_cfg('MCUnitMachine.cfg', Numbers='MCNumbersThorough', Words1='MCWords1',
